@@ -266,7 +266,7 @@ CLAIMED["C08"] = dict(
     "empty script (C11_prepare_then_finalize). PARTIAL: totality, re-parsing, absence of private-use characters with text tags / "
     "use_replace (text, tails and attribute values) and the namespace discipline are decided on every run by the oracle on the real "
     "output over all formatter configurations. "
-    "Known findings X4, X5, X6 (use_replace with text / formatting tags); fixed defect c6abe9e.",
+    "Known findings X4, X5, X6 (use_replace with text / formatting tags); fixed defects c6abe9e, 0a651b9 (undo_string pairing of nested copies of one formatting element).",
     note=_XMLNOTE,
     technique="Lean 4 model + component lemmas; model/code tree correspondence; well-formedness / placeholder / namespace oracle on real output",
     design="DESIGN.md section 6, C08",
